@@ -536,7 +536,7 @@ def _livepatch__object(oldobj, newobj, modname, cache, visit_stack):
             elif hasold and not hasnew:
                 delattr(oldobj, name)
             elif not hasold and hasnew:
-                setattr(oldobj, getattr(newobj, name))
+                setattr(oldobj, name, getattr(newobj, name))
             elif not hasold and not hasnew:
                 pass
             else:
